@@ -795,6 +795,9 @@ pub fn replay(property: &str, kind: &str, case: &Value) -> Option<Vec<Finding>> 
         }
         return Some(vec![]);
     }
+    if kind == "real_case" {
+        return crate::reallayer::replay(property, case);
+    }
     if kind != "grammar_case" {
         return None;
     }
